@@ -63,6 +63,18 @@ pub fn check_mutant(seed_id: &str, m: &Mutant) -> (Option<Viol>, String, bool) {
             if let Err(p) = guarded(|| module.assemble()) {
                 return (mk("assemble", p), "panic".into(), true);
             }
+            // into a caller's buffer: with a large spare capacity, then the same buffer cleared and used again
+            if let Err(p) = guarded(|| {
+                let mut buf: Vec<u32> = Vec::with_capacity(bytes.len() + 4096);
+                module.assemble_into(&mut buf);
+                buf.clear();
+                module.assemble_into(&mut buf);
+                let mut small: Vec<u32> = Vec::with_capacity(1);
+                small.push(7);
+                module.assemble_into(&mut small);
+            }) {
+                return (mk("assemble_into", p), "panic".into(), true);
+            }
             if let Err(p) = guarded(|| module.disassemble()) {
                 return (mk("disassemble", p), "panic".into(), true);
             }
@@ -144,6 +156,15 @@ pub fn run(tier: Tier) -> Run {
             })
             .collect();
         run.outcome("id_relation_sequences", seqs.len() as u64);
+        for v in res.into_iter().flatten() {
+            run.add(v);
+        }
+    }
+    // deep nesting (the recursion depth a reader may reach is bounded by the instruction, never by the stack)
+    {
+        let deep = crate::universe::deep_nesting_words();
+        let res: Vec<Option<Viol>> = deep.par_iter().map(|(n, w)| check_mutant("deep-nesting", &Mutant { what: n.clone(), bytes: crate::model::words_to_bytes(w) }).0).collect();
+        run.outcome("deep_nesting_binaries", deep.len() as u64);
         for v in res.into_iter().flatten() {
             run.add(v);
         }
